@@ -128,14 +128,23 @@ func (s *session) block(kind string, a []int, hexpix string) (string, bool) {
 	if err != nil || len(pix) != 4*W*H || W < 1 || H < 1 {
 		return "", false
 	}
-	img := image.NewNRGBA(image.Rect(0, 0, W, H))
-	copy(img.Pix, pix)
+	// half / full: an *image.NRGBA source (straight alpha); halfp / fullp: an *image.RGBA source (premultiplied)
+	var img image.Image
+	if strings.HasSuffix(kind, "p") {
+		im := image.NewRGBA(image.Rect(0, 0, W, H))
+		copy(im.Pix, pix)
+		img = im
+	} else {
+		im := image.NewNRGBA(image.Rect(0, 0, W, H))
+		copy(im.Pix, pix)
+		img = im
+	}
 	vx := s.blockVx()
 	var out strings.Builder
 	p, msg := hx.Guard(func() {
 		vx.Window().Clear()
 		var im vaxis.Image
-		if kind == "half" {
+		if strings.HasPrefix(kind, "half") {
 			im = vx.NewHalfBlockImage(img)
 		} else {
 			im = vx.NewFullBlockImage(img)
@@ -287,7 +296,7 @@ func (s *session) execOp(f []string) (string, bool) {
 			return "panic", true
 		}
 		return res, true
-	case "half", "full":
+	case "half", "full", "halfp", "fullp":
 		if len(f) != 10 {
 			return "", false
 		}
@@ -785,6 +794,44 @@ func genBlocks(r *hx.Run, rng *gen.Rng, do func(string) string) {
 		}
 		emit("half", W, H, px, bw, bh, rng.Range(0, 4), rng.Range(0, 2), -1, -1)
 		r.Count("half-block-rescaled-opaque")
+	}
+	// round 3: the scaler is inside the model (Model/Scaler.lean) — rescaled images of every kind are compared cell
+	// by cell: opaque full-block images (oracle: mean of the two source pixels under the cell), translucent images
+	// (8-bit premultiplied quantisation), *image.RGBA sources, sizes up to 9x12 squeezed into boxes down to 1x1
+	for i := 0; i < mo; i++ {
+		W, H := rng.Range(2, 9), rng.Range(2, 12)
+		px := make([][4]int, W*H)
+		kind := gen.Pick(rng, []string{"full", "half", "full", "halfp", "fullp"})
+		translucent := rng.Chance(1, 2)
+		for k := range px {
+			a := 255
+			if translucent {
+				a = gen.Pick(rng, []int{0, 1, 2, 49, 50, 51, 100, 128, 200, 254, 255, rng.Intn(256)})
+			}
+			c := [3]int{rng.Intn(256), rng.Intn(256), rng.Intn(256)}
+			if strings.HasSuffix(kind, "p") { // premultiplied: channels <= alpha
+				for j := range c {
+					c[j] = c[j] * a / 255
+				}
+			}
+			px[k] = [4]int{c[0], c[1], c[2], a}
+		}
+		bw, bh := rng.Range(1, W), rng.Range(1, ceilDiv(H, 2))
+		if bw == W && bh == ceilDiv(H, 2) {
+			bh--
+		}
+		emit(kind, W, H, px, bw, bh, rng.Range(0, 4), rng.Range(0, 2), -1, -1)
+		if translucent {
+			r.Count(kind + "-block-rescaled-translucent")
+		} else {
+			r.Count(kind + "-block-rescaled-opaque")
+		}
+	}
+	// unscaled premultiplied sources at every alpha level
+	for a := 0; a < 256; a++ {
+		for _, kind := range []string{"halfp", "fullp"} {
+			emit(kind, 1, 2, [][4]int{{200 * a / 255, 100 * a / 255, 50 * a / 255, a}, {a, a / 2, 0, a}}, 4, 4, 1, 1, -1, -1)
+		}
 	}
 }
 
